@@ -716,7 +716,7 @@ class PythonTypesBackend(CodeBackend):
                 field_name = fmt_var(field.name, check_reserved=True)
                 recursive_processors = list(self._generate_custom_annotation_processors(
                     ns, field.data_type, field.custom_annotations))
-                recursive_processors = sorted(recursive_processors, key=lambda x: x[0].name)
+                recursive_processors = sorted(recursive_processors, key=_processor_sort_key)
                 for annotation_type, processor in recursive_processors:
                     annotation_class = class_name_for_annotation_type(annotation_type, ns)
                     self.emit('if annotation_type is {}:'.format(annotation_class))
@@ -999,7 +999,7 @@ class PythonTypesBackend(CodeBackend):
                 if len(recursive_processors) == 0:
                     continue
 
-                recursive_processors = sorted(recursive_processors, key=lambda x: x[0].name)
+                recursive_processors = sorted(recursive_processors, key=_processor_sort_key)
 
                 field_name = fmt_func(field.name)
                 self.emit('if self.is_{}():'.format(field_name))
@@ -1072,6 +1072,15 @@ class PythonTypesBackend(CodeBackend):
             self.emit("{}._redact = bv.HashRedactor({})".format(validator_name, regex))
         elif isinstance(redactor, RedactedBlot):
             self.emit("{}._redact = bv.BlotRedactor({})".format(validator_name, regex))
+
+def _processor_sort_key(annotation_type_and_processor):
+    """
+    Total order for (annotation type, processor code) pairs. They are collected
+    from sets, and the annotation type name alone does not distinguish two
+    annotations of one type or same-named types of different namespaces.
+    """
+    annotation_type, processor = annotation_type_and_processor
+    return (annotation_type.name, annotation_type.namespace.name, processor)
 
 def _get_ancestor_omitted_callers(data_type):
     """
